@@ -174,8 +174,19 @@ class Inst:
             raise RockitRaised('%s|%s: %s' % (loc, type(e).__name__, (str(e).strip().splitlines() or [''])[-1][:200]))
         self.t_rockit = time.time() - t0
         if callable(extra_outputs):
-            with quiet():
-                extra_outputs = extra_outputs(self.b)
+            try:
+                with quiet():
+                    extra_outputs = extra_outputs(self.b)
+            except (HarnessError, Unsupported):
+                raise
+            except Exception as e:
+                # read-back queries (sample / value / sampler ...) are rockit calls too: an exception raised inside rockit is the code's answer
+                import traceback
+                tb = traceback.extract_tb(e.__traceback__)
+                where = [f for f in tb if '/rockit/' in f.filename]
+                if not where:
+                    raise
+                raise RockitRaised('%s:%s|%s: %s' % (where[-1].filename.split('/rockit/')[-1], where[-1].name, type(e).__name__, (str(e).strip().splitlines() or [''])[-1][:200]))
             if isinstance(extra_outputs, tuple):
                 # (outputs, extra free symbols): the symbols become additional universally quantified inputs
                 extra_outputs, extra_syms = extra_outputs
